@@ -110,6 +110,8 @@ class Variants:
             "vr_toplevel_needs_slot": not probes.get("toplevel_without_slot", True),
             "vr_ext_nonempty": not probes.get("empty_extensions", True),
             "vr_marking_flag": not probes.get("marking_flag_ignored", True),
+            "vr_flag_from_stored": not probes.get("null_custom_sets_flag", True),
+            "vr_ext_order_sorted": bool(probes.get("ext_order_sorted", False)),
         }
 
     def coq_variant(self):
